@@ -3,7 +3,7 @@ import math
 
 from rv import bridge, gen, solvercheck as SC, suite
 from rv.bridge import ALL, ANY
-from rv.core import Inconclusive
+from rv.core import Inconclusive, skippable
 from rv.refmodel import dtl
 
 INF = math.inf
@@ -28,7 +28,7 @@ META = {
 
 def plan(tier, seed):
     q = tier == "quick"
-    return [{"kind": "agree", "i": i, "count": 26 if q else 480} for i in range(16 if q else 32)]
+    return [{"kind": "agree", "i": i, "count": 60 if q else 480} for i in range(32)]
 
 
 def min_of(algo, B):
@@ -70,6 +70,7 @@ def relations(mins, single_family, hgt_inf, small):
     return rel
 
 
+@skippable
 def check_case(ctx, case):
     single = case.get("single_family", False)
     B = bridge.Built(case)
